@@ -196,6 +196,63 @@ type Shape struct {
 	F    func(r *rand.Rand, n int) []byte
 }
 
+// TextPunct: prose in which every printable ASCII punctuation character (and a few control and
+// high bytes) occurs directly after, before and between words - Windows paths, escape sequences,
+// markup, source code - so that the word-delimiter classification of the text transforms matters
+// for every delimiter candidate.
+func TextPunct(r *rand.Rand, n int) []byte {
+	punct := []byte("!\"#$%&'()*+,-./:;<=>?@[\\]^_`{|}~\t\n\r\x00\x7f\xa0\xe9")
+	var sb strings.Builder
+	k := r.Intn(len(punct))
+	for sb.Len() < n {
+		w := words[r.Intn(len(words))]
+		if r.Intn(8) == 0 {
+			w = strings.Title(w)
+		}
+		sb.WriteString(w)
+		switch r.Intn(6) {
+		case 0:
+			sb.WriteByte(' ')
+		case 1: // word, delimiter candidate, word
+			sb.WriteByte(punct[k%len(punct)])
+			k++
+		case 2: // path / escape like: C:\Users\name or line\n
+			sb.WriteByte('\\')
+			sb.WriteString(words[r.Intn(len(words))])
+			sb.WriteByte('\\')
+		case 3:
+			sb.WriteByte(punct[k%len(punct)])
+			sb.WriteByte(' ')
+			k++
+		default:
+			sb.WriteByte(' ')
+			sb.WriteByte(punct[k%len(punct)])
+			k++
+		}
+	}
+	return []byte(sb.String())[:n]
+}
+
+// ExtraShapes are found by name (ShapeByName) but are not part of the grids that iterate over Shapes.
+var ExtraShapes = []Shape{
+	{"textpunct", TextPunct},
+}
+
+// ShapeByName looks a shape up in Shapes and ExtraShapes.
+func ShapeByName(name string) *Shape {
+	for i := range Shapes {
+		if Shapes[i].Name == name {
+			return &Shapes[i]
+		}
+	}
+	for i := range ExtraShapes {
+		if ExtraShapes[i].Name == name {
+			return &ExtraShapes[i]
+		}
+	}
+	return nil
+}
+
 var Shapes = []Shape{
 	{"text", Text},
 	{"utf8-50", func(r *rand.Rand, n int) []byte { return UTF8(r, n, 50) }},
